@@ -9,6 +9,7 @@
   (default_color_converter_impl<C1,C2>), not what the conversions "should" do.
 -/
 import GilVerif.Gen.C09
+import GilVerif.Model.C09Table
 
 namespace GilVerif.Model.C09
 open GilVerif.Gen.C09
@@ -85,6 +86,19 @@ def rgbToCmyk (s t : Depth) (r g b : Int) : List Int :=
       (f c, f m, f y)
     else (0, 0, 0)
   [chConv .d8 t c, chConv .d8 t m, chConv .d8 t y, chConv .d8 t k]
+
+/-- rgb8 -> cmyk8 with the `double` step replaced by the table extracted from the compiled code (Model/C09Table.lean);
+    pure integer arithmetic, so the kernel can reason about it.  Equal to `rgbToCmyk .d8 .d8` as long as the table is the
+    code's table, which every run checks on all 255 rows (and the sweeps check on all 2^24 pixels). -/
+def rgbToCmykT (r g b : Int) : List Int :=
+  let c := invert_u8 r 255 0
+  let m := invert_u8 g 255 0
+  let y := invert_u8 b 255 0
+  let k := min c (min m y)
+  if k = 255 then [0, 0, 0, 255]
+  else
+    let f (x : Int) : Int := Int.ofNat (cmykScale k.toNat (x - k).toNat)
+    [f c, f m, f y, k]
 
 def nth (p : List Int) (i : Nat) : Int := p.getD i 0
 
